@@ -76,6 +76,7 @@ func runC12(r *Run, rng *Rng, thorough bool) {
 		} else if g1, g2 := gettersOnly(observe(c)), gettersOnly(observe(c2)); g1 != g2 {
 			r.Fail("json-roundtrip", fmt.Sprintf("getter results differ after JSON round trip:\n before: %s\n after:  %s", g1, g2))
 		}
+		deprecatedAliases(r, "own JSON", j)
 		// CBOR -> claims -> JSON -> claims -> CBOR reproduces the bytes
 		b, err := psa.EncodeClaimsToCBOR(c)
 		if err != nil {
